@@ -2,7 +2,7 @@ import ApdVerif.Spec.Agrees
 import ApdVerif.Lemmas.MulLemmas
 /-! # Mul agrees with the specification (exact product, `setExponent`, then `round`: no double rounding) -/
 namespace Apd.Props
-open Apd Apd.Oracle
+open Apd Apd.Oracle Apd.MulL
 
 theorem empty_or (a : Cond) : ({} : Cond) ||| a = a := by
   apply Cond.ext' <;> simp
